@@ -101,10 +101,10 @@ def compare_final(ctx, prefix, st, got, want, site, extra_new=None):
                   % (same_struct, same_scheme, same_res, got["result"], want["result"], same_pts))
 
 
-def run_to(dc, case, limits):
+def run_to(dc, case, limits, with_eo=False):
     s, eo, f = dc.build(case["cfg"], case["comps"], case["ref"])
     r = dc.run_adaptive(s, eo, 1, case["cfg"]["lmax"], limits["tol"], limits["max"], limits.get("min", 1))
-    return s, r
+    return (s, r, eo) if with_eo else (s, r)
 
 
 def check_case(ctx, case):
@@ -125,6 +125,19 @@ def check_case(ctx, case):
     if I is None:
         return
     extra = new_area_values(I) if st == "extend" else None
+    if case.get("container"):
+        # third way of continuing: a second performSpatiallyAdaptiv on the same instance that is handed the refinement reached so far
+        # (refinement_container=...), with the final limits (missed seed C14_8: the operation was re-initialised on that path, the point count restarted)
+        got = None
+        with ctx.guard("B.resume.result", S_CONT, st + "-container-raises"):
+            I2, rI2, eo2 = run_to(dc, case, itr, with_eo=True)
+            with quiet():
+                r = I2.performSpatiallyAdaptiv(1, case["cfg"]["lmax"], eo2, fin["tol"], refinement_container=I2.refinement, max_evaluations=fin["max"],
+                                               min_evaluations=fin.get("min", 1), print_output=False)
+            got = snapshot(dc, I2, dc._freeze(r))
+        if got is not None:
+            compare_final(ctx, "B.resume", st + "-container", got, want, S_CONT, None)
+        return
     if not case["save"]:
         got = None
         with ctx.guard("B.resume.result", S_CONT, st + "-raises"):
@@ -275,6 +288,10 @@ def run(ctx):
                     if ctx.out_of_time(0.92):
                         break
                     case = dict(base, kind="case", final=final, interrupt=itr, save=save, probe=probe, index=j)
+                    ctx.case(case, nontrivial=last > 0)
+                    check_case(ctx, case)
+                if cfg["strategy"] == "dimwise" and not ctx.out_of_time(0.92):
+                    case = dict(base, kind="case", final=final, interrupt=itr, save=False, container=True, probe=probe, index=j)
                     ctx.case(case, nontrivial=last > 0)
                     check_case(ctx, case)
             # interruption at the LAST evaluation of the uninterrupted run: first limit smaller than the final one, but the refinement reached
